@@ -86,26 +86,57 @@ theorem readUntilSemiColon_rest (pinned : Bool) (cs : List Chunk) (ln : List UIn
     (h : readUntilSemiColon pinned cs ln = .ok l) (he : l.err = false) : l.rest.length < cs.length :=
   readUntilSemiColonRev_rest pinned cs _ l h he
 
-/-- `fileutils.Readln(r)`: one line, assembled from the chunks of `ReadLine` while `isPrefix`;
-    returns the line, whether `ReadLine` reported its error, and the chunks still to come -/
-def readln : List Chunk → List UInt8 × Bool × List Chunk
+/-- the loop of `fileutils.Readln(r)`: one line, assembled from the chunks of `ReadLine` while `isPrefix`;
+    returns the line, whether `ReadLine` reported its error (io.EOF), and the chunks still to come.
+    (This was all of `Readln` before fix 34f70d2.) -/
+def readlnRaw : List Chunk → List UInt8 × Bool × List Chunk
   | [] => ([], true, [])
   | c :: rest =>
     if c.isPrefix then
-      let r := readln rest
+      let r := readlnRaw rest
       (c.line ++ r.1, r.2.1, r.2.2)
     else (c.line, false, rest)
 
-theorem readln_rest_lt : ∀ (cs : List Chunk), (readln cs).2.1 = false → (readln cs).2.2.length < cs.length
-  | [], h => by simp [readln] at h
+/-- the error only comes with the end of the chunks -/
+theorem readlnRaw_err_rest : ∀ (cs : List Chunk), (readlnRaw cs).2.1 = true → (readlnRaw cs).2.2 = []
+  | [], _ => rfl
   | c :: rest, h => by
-    unfold readln at h ⊢
+    unfold readlnRaw at h ⊢
     split
     · rename_i hp
       simp only [hp, if_true] at h
-      have := readln_rest_lt rest h
+      exact readlnRaw_err_rest rest h
+    · rename_i hp
+      simp [hp] at h
+
+theorem readlnRaw_rest_lt : ∀ (cs : List Chunk), (readlnRaw cs).2.1 = false → (readlnRaw cs).2.2.length < cs.length
+  | [], h => by simp [readlnRaw] at h
+  | c :: rest, h => by
+    unfold readlnRaw at h ⊢
+    split
+    · rename_i hp
+      simp only [hp, if_true] at h
+      have := readlnRaw_rest_lt rest h
       simp only [List.length_cons]; omega
     · simp
+
+/-- `fileutils.Readln(r)` (34f70d2): `if err == io.EOF && len(ln) > 0 { err = nil }` — an unterminated last line
+    that fills the buffer exactly arrives together with the end of the input and is still a line -/
+def readln (cs : List Chunk) : List UInt8 × Bool × List Chunk :=
+  let r := readlnRaw cs
+  if r.2.1 && !r.1.isEmpty then (r.1, false, r.2.2) else r
+
+theorem readln_rest_lt (cs : List Chunk) (h : (readln cs).2.1 = false) : (readln cs).2.2.length < cs.length := by
+  unfold readln at h ⊢
+  by_cases hc : ((readlnRaw cs).2.1 && !(readlnRaw cs).1.isEmpty) = true
+  · simp only [hc, if_true]
+    simp only [Bool.and_eq_true] at hc
+    rw [readlnRaw_err_rest cs hc.1]
+    cases cs with
+    | nil => simp [readlnRaw] at hc
+    | cons c r => simp
+  · simp only [hc] at h ⊢
+    exact readlnRaw_rest_lt cs h
 
 /-- every line `Readln` returns until the error, as the callers loop (`for err == nil`) -/
 def readLines (cs : List Chunk) : List (List UInt8) :=
